@@ -1,0 +1,101 @@
+//go:build verif
+
+// Contracts for the verification machinery in /verif (comment-only; no code).
+// Hubs: closed => error, every blocking wait is woken by close and by cancellation,
+// a delivery reports success only after a rendezvous, a receive only after its callback ran.
+// Channel protocol (rely): every request sent on the rendezvous channel is a new request whose
+// done channel is open; only its receiver closes it. Callbacks keep the hub invariant.
+
+package swarmutil
+
+//@ type TellHub
+//@   invariant closed != nil && delivers != nil && !closed(delivers) && closed != delivers
+//@   invariant closed(closed) ==> err != nil
+//@   invariant closeOnce <==> closed(closed)
+//@   chan delivers: x != nil && x.done != nil && !closed(x.done) && x.done != q.closed && x.done != q.delivers
+//@   chan closed: false
+
+//@ type AskHub
+//@   invariant closed != nil && reqs != nil && !closed(reqs) && closed != reqs
+//@   invariant closed(closed) ==> err != nil
+//@   invariant closeOnce <==> closed(closed)
+//@   chan reqs: x != nil && x.done != nil && !closed(x.done) && x.done != q.closed && x.done != q.reqs
+//@   chan closed: false
+
+//@ func (*TellHub).checkClosed
+//@   requires inv(q)
+//@   pure
+//@   ensures closed(q.closed) ==> ret != nil
+//@
+//@ func (*TellHub).CloseWithError
+//@   requires inv(q)
+//@   modifies q.err, q.closeOnce
+//@   ensures [inv] inv(q)
+//@   ensures [closed] closed(q.closed)
+//@   ensures [err] q.err != nil
+//@   ensures old(closed(q.closed)) ==> q.err == old(q.err)
+//@
+//@ func (*TellHub).Receive
+//@   noframe
+//@   requires inv(q)
+//@   wakes closed(q.closed)
+//@   wakes done(ctx)
+//@   ghostvar called = false
+//@   ensures inv(q)
+//@   ensures [closed] old(closed(q.closed)) ==> ret != nil
+//@   ensures [handoff] ret == nil ==> ghost(called)
+//@   after call fn:
+//@     set called = true
+//@   fnspec fn:
+//@     ensures inv(q)
+//@     preserves req, req.done, closed(req.done), q.closed, q.delivers
+//@
+//@ func (*TellHub).Deliver
+//@   noframe
+//@   requires inv(q)
+//@   wakes closed(q.closed)
+//@   wakes done(ctx)
+//@   ensures inv(q)
+//@   ensures [rendezvous] ret == nil ==> sent()
+//@
+//@ func (*AskHub).checkClosed
+//@   requires inv(q)
+//@   pure
+//@   ensures closed(q.closed) ==> ret != nil
+//@
+//@ func (*AskHub).CloseWithError
+//@   requires inv(q)
+//@   modifies q.err, q.closeOnce
+//@   ensures [inv] inv(q)
+//@   ensures [closed] closed(q.closed)
+//@   ensures [err] q.err != nil
+//@   ensures old(closed(q.closed)) ==> q.err == old(q.err)
+//@
+//@ func (*AskHub).Close
+//@   requires inv(q)
+//@   modifies q.err, q.closeOnce
+//@   ensures inv(q) && closed(q.closed) && q.err != nil && ret == nil
+//@
+//@ func (*AskHub).ServeAsk
+//@   noframe
+//@   requires inv(q)
+//@   wakes closed(q.closed)
+//@   wakes done(ctx)
+//@   ghostvar called = false
+//@   ensures inv(q)
+//@   ensures [closed] old(closed(q.closed)) ==> ret != nil
+//@   ensures [handoff] ret == nil ==> ghost(called)
+//@   after call fn:
+//@     set called = true
+//@   fnspec fn:
+//@     ensures inv(q)
+//@     preserves req, req.done, closed(req.done), q.closed, q.reqs
+//@
+//@ func (*AskHub).Deliver
+//@   noframe
+//@   requires inv(q)
+//@   wakes closed(q.closed)
+//@   wakes done(ctx)
+//@   ensures inv(q)
+//@   ensures [rendezvous] ret1 == nil ==> sent()
+//@   ensures [noanswer] ret1 != nil ==> ret0 == 0
